@@ -38,6 +38,12 @@ def ensure_driver():
 def extract(flavour='dev', repo=None, keep_json=None):
     """Compile `repo` with the dump driver; return the parsed fact document."""
     repo = repo or REPO
+    dbg = os.environ.get('PKV_FACTS_FILE')   # debugging aid only: reuse a fact file (never set by registered commands)
+    if dbg and os.path.exists(dbg % flavour if '%' in dbg else dbg):
+        with open(dbg % flavour if '%' in dbg else dbg) as f:
+            doc = json.load(f)
+        doc.setdefault('_extract_s', 0.0); doc['_flavour'] = flavour; doc['_repo'] = repo
+        return doc
     ensure_driver()
     tmp = tempfile.mkdtemp(prefix='pkv-facts-')
     try:
